@@ -2,9 +2,11 @@ package main
 
 import (
 	"crypto/sha256"
+	"encoding/hex"
 	"flag"
 	"fmt"
 	"math/big"
+	"regexp"
 	"sort"
 
 	"github.com/golang/protobuf/proto"
@@ -190,6 +192,9 @@ type ledgerObs struct {
 	Txs     []txObs     `json:"txs"`
 	Tips    []int       `json:"tips"`
 	Paths   [][]pathObs `json:"paths"`
+	// GetCommonParentBlockid of every pair of stored blocks; Dump(): per height the stored blocks (id, in-trunk flag)
+	Lca  [][]int           `json:"lca"`
+	Dump [][][]interface{} `json:"dump"`
 }
 
 // projectLedger issues every query the property names on ledger l and maps the answers back to
@@ -276,7 +281,49 @@ func (s *ledgerSim) projectLedgerN(l *ledger.Ledger, n int) ledgerObs {
 		}
 		o.Paths = append(o.Paths, row)
 	}
+	s.projectExtra(l, n, alive, &o)
 	return o
+}
+
+var dumpRe = regexp.MustCompile(`^\{ID:([0-9a-f]*),TxCount:\d+,InTrunk:(true|false),`)
+
+// projectExtra adds the lowest-common-ancestor query and Dump to the projection.
+func (s *ledgerSim) projectExtra(l *ledger.Ledger, n int, alive map[int]bool, o *ledgerObs) {
+	for a := 1; a <= n; a++ {
+		row := []int{}
+		for b := 1; b <= n; b++ {
+			x := 0
+			if alive[a] && alive[b] {
+				if id, err := l.GetCommonParentBlockid(s.blocks[a].Blockid, s.blocks[b].Blockid); err != nil {
+					x = -1
+				} else {
+					x = s.abs(id)
+				}
+			}
+			row = append(row, x)
+		}
+		o.Lca = append(o.Lca, row)
+	}
+	o.Dump = [][][]interface{}{}
+	d, err := l.Dump()
+	if err != nil {
+		o.Dump = append(o.Dump, [][]interface{}{{-1, false}})
+		return
+	}
+	for _, level := range d {
+		row := [][]interface{}{}
+		for _, str := range level {
+			m := dumpRe.FindStringSubmatch(str)
+			if m == nil {
+				row = append(row, []interface{}{-2, false})
+				continue
+			}
+			id, _ := hex.DecodeString(m[1])
+			row = append(row, []interface{}{s.abs(id), m[2] == "true"})
+		}
+		sort.Slice(row, func(i, j int) bool { return row[i][0].(int) < row[j][0].(int) })
+		o.Dump = append(o.Dump, row)
+	}
 }
 
 func ledgerReplay(args []string) error {
